@@ -34,6 +34,7 @@ from collections import namedtuple
 from six.moves import range
 
 from pybufrkit.constants import DEFAULT_TABLES_DIR
+from pybufrkit.errors import PyBufrKitError
 from pybufrkit.descriptors import (ElementDescriptor,
                                    FixedReplicationDescriptor, DelayedReplicationDescriptor,
                                    OperatorDescriptor, SequenceDescriptor, BufrTemplate,
@@ -291,7 +292,11 @@ def _descriptors_from_ids_iter(b, c, r, d, next_id):
         elif id_ >= 100000:
             descriptor = r.lookup(id_)
             if isinstance(descriptor, DelayedReplicationDescriptor):
-                descriptor.factor = b.lookup(next_id())
+                try:
+                    descriptor.factor = b.lookup(next_id())
+                except StopIteration:
+                    raise PyBufrKitError(
+                        'No replication factor follows delayed replication descriptor {}'.format(id_))
 
             g = generate_quiet(range(descriptor.n_items), next_id)
             # TODO: check whether the actual number of members equals to n_items
